@@ -496,6 +496,12 @@ func (c *Client) Uptime() (up *time.Time, err error) {
 	}
 
 	c.mu.RLock()
+	if c.conn == nil {
+		// Disconnected since the check above.
+		c.mu.RUnlock()
+		return nil, ErrNotConnected
+	}
+
 	c.conn.mu.RLock()
 	up = c.conn.connTime
 	c.conn.mu.RUnlock()
@@ -512,6 +518,12 @@ func (c *Client) ConnSince() (since *time.Duration, err error) {
 	}
 
 	c.mu.RLock()
+	if c.conn == nil {
+		// Disconnected since the check above.
+		c.mu.RUnlock()
+		return nil, ErrNotConnected
+	}
+
 	c.conn.mu.RLock()
 	timeSince := time.Since(*c.conn.connTime)
 	c.conn.mu.RUnlock()
@@ -775,6 +787,12 @@ func (c *Client) ServerMOTD() (motd string) {
 // when we receive a pong.
 func (c *Client) Latency() (delta time.Duration) {
 	c.mu.RLock()
+	if c.conn == nil {
+		// Not connected: there is nothing to measure.
+		c.mu.RUnlock()
+		return 0
+	}
+
 	c.conn.mu.RLock()
 	delta = c.conn.lastPong.Sub(c.conn.lastPing)
 	c.conn.mu.RUnlock()
